@@ -44,6 +44,9 @@ def construct(ps):
         return obj
     if k == "rev":
         n, r, d, uf, ub, wd, rd = (int(x) for x in ps[2:9])
+        if len(ps) > 9 and int(ps[9]) > 1:     # fractional costs (see gen.rev)
+            sc = int(ps[9])
+            uf, ub, wd, rd = uf / sc, ub / sc, wd / sc, rd / sc
         if ps[1] == "revolve":
             return cs.Revolve(n, r, uf=uf, ub=ub, wd=wd, rd=rd)
         if ps[1] == "disk":
